@@ -1,5 +1,5 @@
 (* C17 - the c-representation ranking function is a (Pareto-)minimal model of the base. *)
-From InfOCF Require Import Core Tol CInf Form Model CModel ThmC ThmPareto.
+From InfOCF Require Import Core Tol CInf Form Model CModel ThmC ThmPareto ThmPostInt ThmParetoEx.
 From InfOCFProps Require Import Ex.
 
 (* an impact vector solves the compiled CSP iff the ranking "sum of the impacts of the falsified conditionals" accepts every
@@ -18,6 +18,19 @@ Theorem C17_pareto_checker_sound : forall n D eta, pareto_check n D eta = true -
   length eta = length D /\ crep_b n D eta = true /\ forall e', le_vec e' eta -> crep_b n D e' = true -> e' = eta.
 Proof. exact pareto_check_sound. Qed.
 Print Assumptions C17_pareto_checker_sound.
+
+(* construction succeeds: every strongly consistent base has a c-representation; below every c-representation lies a
+   Pareto-minimal one; hence a Pareto-minimal c-representation exists *)
+Theorem C17_c_representation_exists : forall n D P, part_strict n D = Some P -> exists eta, length eta = length D /\ crep_b n D eta = true.
+Proof. exact strict_has_crep. Qed.
+Print Assumptions C17_c_representation_exists.
+Theorem C17_minimal_below_every_c_representation : forall n D s eta, list_sum eta <= s -> length eta = length D -> crep_b n D eta = true ->
+  exists e, le_vec e eta /\ pareto_check n D e = true.
+Proof. exact pareto_below. Qed.
+Print Assumptions C17_minimal_below_every_c_representation.
+Theorem C17_pareto_minimal_exists : forall n D P, part_strict n D = Some P -> exists e, pareto_check n D e = true.
+Proof. exact pareto_minimal_exists. Qed.
+Print Assumptions C17_pareto_minimal_exists.
 
 Example birds_minimal : pareto_check 4 birds [1;2;2;1] = true /\ pareto_check 4 birds [1;2;2;2] = false
   /\ front_missing 4 birds 3 [[1;2;2;1]] = [].
